@@ -28,8 +28,9 @@ pub fn search_upstream_dockerignore(
     dockerignore_filters: &mut Vec<DockerignoreFilter>,
     dir: &Path,
 ) {
-    if let Ok(canonical_path) = crate::util::canonical_path(&dir.to_path_buf()) {
-        let mut path = std::path::PathBuf::from(canonical_path);
+    // (the path itself, not its display text: a name that is no valid Unicode exists under
+    // its own bytes only)
+    if let Ok(mut path) = std::fs::canonicalize(dir) {
 
         loop {
             let dockerignore_file = path.join(".dockerignore");
